@@ -6,5 +6,7 @@ CONSTANTS
   Monotone = TRUE
   Ticks = FALSE
   IdleRec = FALSE
+  Cap = 1
+  Eager = FALSE
 INVARIANTS TypeOK Inv_NoEmpty200
 VIEW View
